@@ -82,6 +82,29 @@ process R(const int a) { state S; init S; }
 Q = P(i, j, 1, 2, 3, x, c);
 system Q, R;
 """),
+    ("""int a[3]; int a2[2]; int b2[2][2]; const SZ 2; int v; clock x, y; chan cs[2]; broadcast chan bc;
+process T(const k, m; int w[2]; chan e[2]; const n) {
+    const L 3; int t[2] := {0, 1};
+    state S0 { x <= L, y <= k + m + n }, S1;
+    init S0;
+    trans S0 -> S1 { guard a[0] < SZ, w[1] == t[0]; sync e[0]!; assign a[1] := k, v := m + n; },
+          S1 -> S0 { sync bc?; assign w[0] := t[1], x := 0, y := 0; };
+}
+process U() { state Z; init Z; }
+T1 := T(1, 2, a2, cs, 3);
+system T1, U;
+""", """int a[3]; int a2[2]; int b2[2][2]; const int SZ = 2; int v; clock x, y; chan cs[2]; broadcast chan bc;
+process T(const int k, const int m, int &w[2], chan &e[2], const int n) {
+    const int L = 3; int t[2] = {0, 1};
+    state S0 { x <= L && y <= k + m + n }, S1;
+    init S0;
+    trans S0 -> S1 { guard a[0] < SZ && w[1] == t[0]; sync e[0]!; assign a[1] = k, v = m + n; },
+          S1 -> S0 { sync bc?; assign w[0] = t[1], x = 0, y = 0; };
+}
+process U() { state Z; init Z; }
+T1 = T(1, 2, a2, cs, 3);
+system T1, U;
+"""),
 ]
 
 
